@@ -199,6 +199,63 @@ def _ctor_arg(call, name):
   return None
 
 
+def _eval_keys(U, f, expr):
+  """Keys of the dict an expression of function f evaluates to, by interpreting the statements it depends on (backward
+  slice over local names) with every value the slice does not define replaced by a fresh symbol: the KEY SET of a
+  metrics / info dict is host data even when it is built by a comprehension, dict(zip(...)), update() ..."""
+  from braxlint import avn
+  from braxlint.avn import Struct
+  from braxlint.avnlib import new_interp, sym
+  need = {n.id for n in ast.walk(expr) if isinstance(n, ast.Name)}
+  keep = []
+  for s_ in reversed(f.node.body):
+    tg = set()
+    for x in ([s_] if isinstance(s_, (ast.Assign, ast.AugAssign, ast.AnnAssign)) else
+              [y for y in ast.walk(s_) if isinstance(y, (ast.Assign, ast.AugAssign, ast.AnnAssign))] if isinstance(s_, (ast.If, ast.For, ast.With)) else []):
+      for t in (x.targets if isinstance(x, ast.Assign) else [x.target]):
+        tg |= _assigned(t)
+    mut = isinstance(s_, ast.Expr) and isinstance(s_.value, ast.Call) and isinstance(s_.value.func, ast.Attribute) and \
+        isinstance(s_.value.func.value, ast.Name) and s_.value.func.value.id in need      # x.update(...), x.setdefault(...)
+    sub = isinstance(s_, ast.Assign) and isinstance(s_.targets[0], ast.Subscript) and isinstance(s_.targets[0].value, ast.Name) \
+        and s_.targets[0].value.id in need
+    if (tg & need) or mut or sub:
+      keep.append(s_)
+      need |= {n.id for n in ast.walk(s_) if isinstance(n, ast.Name) and isinstance(n.ctx, ast.Load)}
+  I = new_interp(U.repo)
+  fresh = {}
+
+  class Env(dict):
+    def __missing__(self, k):
+      raise KeyError(k)
+  env = {'v': {}, 'p': None}
+  mock = lambda tag: Struct('Mock', {'__missing__': lambda a, tag=tag: sym('%s_%s' % (tag, a))})
+  for p_ in [a.arg for a in f.node.args.args]:
+    env['v'][p_] = mock(p_)
+  base_lookup = I.lookup
+
+  def lookup(name, e, mod):
+    try:
+      return base_lookup(name, e, mod)
+    except avn.OutOfFragment:
+      if name not in fresh:
+        fresh[name] = sym('free_' + name)
+      return fresh[name]
+  I.lookup = lookup
+  try:
+    for s_ in reversed(keep):
+      try:
+        I.stmt(s_, env, f.mod.name)
+      except avn.OutOfFragment:
+        # a statement of the slice that cannot be interpreted defines its targets as fresh symbols
+        for x in ast.walk(s_):
+          if isinstance(x, ast.Name) and isinstance(x.ctx, ast.Store):
+            env['v'][x.id] = sym('opaque_' + x.id)
+    v = I.ev(expr, env, f.mod.name)
+  except (avn.OutOfFragment, AnalysisError):
+    return None
+  return sorted(v.keys()) if isinstance(v, dict) and all(isinstance(k, str) for k in v) else None
+
+
 def r16_2_3(U, rep, envs):
   for ename, (modname, cname) in sorted(envs.items()):
     reset, step = method(U, modname, cname, 'reset'), method(U, modname, cname, 'step')
@@ -223,6 +280,8 @@ def r16_2_3(U, rep, envs):
               keys.append(n.targets[0].slice.value)
         else:
           keys = _dict_keys(a)
+        if keys is None:
+          keys = _eval_keys(U, reset, a)         # not a literal: evaluate the (sliced) expression
         if keys is None:
           raise AnalysisError('%s.reset: cannot enumerate %s keys' % (cname, fld))
       created[fld] = set(keys)
@@ -259,9 +318,31 @@ def r16_2_3(U, rep, envs):
       if isinstance(n, ast.Return):
         nret += 1
         v = n.value
+        hops = 0
+        while isinstance(v, ast.Name) and hops < 4:      # `new_state = state.replace(...); return new_state`
+          d_ = _local_def(step.node, v.id)
+          if d_ is None:
+            break
+          v, hops = d_, hops + 1
         if not (isinstance(v, ast.Call) and isinstance(v.func, ast.Attribute) and v.func.attr == 'replace'
-                and dotted(v.func.value) == [sname] and all(k.arg in STATE_FIELDS for k in v.keywords)):
+                and all(k.arg in STATE_FIELDS for k in v.keywords)):
           ok = False
+        else:
+          base = v.func.value          # state, or a chain state.replace(...).replace(...), or a local bound to one
+          hops = 0
+          while hops < 6:
+            if isinstance(base, ast.Name) and base.id != sname:
+              d_ = _local_def(step.node, base.id)
+              if d_ is None:
+                break
+              base = d_
+            elif isinstance(base, ast.Call) and isinstance(base.func, ast.Attribute) and base.func.attr == 'replace':
+              base = base.func.value
+            else:
+              break
+            hops += 1
+          if dotted(base) != [sname]:
+            ok = False
     rep.check(ok and nret >= 1, 'R16.2', '%s.step returns state.replace(...)' % cname,
               '%s.step does not return state.replace(<existing State fields>)' % cname, where=step.where())
     # R16.3 done is a zero constructor
